@@ -617,6 +617,80 @@ fn conversions(rep: &mut Report, tier: Tier) {
                 }
             }
         }
+        // maps of maps (and maps of vectors of maps): earlier members hold non-empty objects - whose
+        // fragments are values, entries *and* keys - and a later leaf has the wrong kind; every
+        // position of the planted leaf, outer sizes 1..=3, inner sizes 0..=2, root and nested
+        for outer in 1..=3usize {
+            for inner in 0..=2usize {
+                for plant in 0..outer * inner.max(1) {
+                    for nested in [false, true] {
+                        let mut text = String::new();
+                        if nested {
+                            text.push_str("[null, ");
+                        }
+                        text.push('{');
+                        let mut leaf = 0usize;
+                        let mut planted_at = None;
+                        for a in 0..outer {
+                            if a > 0 {
+                                text.push_str(", ");
+                            }
+                            text.push_str(&format!("\"o{a}\": "));
+                            if inner == 0 {
+                                // the outer value itself is the wrong-kind fragment
+                                if leaf == plant {
+                                    planted_at = Some(text.len());
+                                    text.push_str("7");
+                                } else {
+                                    text.push_str("{}");
+                                }
+                                leaf += 1;
+                                continue;
+                            }
+                            text.push('{');
+                            for b in 0..inner {
+                                if b > 0 {
+                                    text.push_str(", ");
+                                }
+                                text.push_str(&format!("\"i{b}\": "));
+                                if leaf == plant {
+                                    planted_at = Some(text.len());
+                                    text.push_str("[7]");
+                                } else {
+                                    text.push_str("\"v\"");
+                                }
+                                leaf += 1;
+                            }
+                            text.push('}');
+                        }
+                        text.push('}');
+                        if nested {
+                            text.push(']');
+                        }
+                        let Some(at) = planted_at else { continue };
+                        let Ok(doc) = refmodel::dec::decode(&text) else {
+                            t.violation("MACHINERY-gen", "conversion family produced invalid JSON".to_string(), json!({"text": text}));
+                            continue;
+                        };
+                        // (index of the value fragment that starts at the planted position; an entry
+                        // starts at its key, so only the value starts there)
+                        let expected = doc.map.iter().position(|(s, _, _)| *s == at).unwrap();
+                        let (v, m) = Value::parse_str(&text).unwrap();
+                        t.evals += 1;
+                        t.nontrivial(&text);
+                        let got = if nested {
+                            explore::guard(|| Vec::<Option<BTreeMap<String, BTreeMap<String, Leaf>>>>::try_from_json(&v, &m).err().map(|e| e.offset))
+                        } else {
+                            explore::guard(|| BTreeMap::<String, BTreeMap<String, Leaf>>::try_from_json(&v, &m).err().map(|e| e.offset))
+                        };
+                        if got != Ok(Some(expected)) {
+                            t.violation("", format!("map of maps: error offset {got:?}, the offending fragment has index {expected}"), case(&text));
+                        }
+                        t.outcome("conversion:map of maps, planted mismatch");
+                    }
+                }
+            }
+        }
         // a key that does not parse as the key type is reported at the key's fragment
         for n in 1..=3usize {
             for k in 0..n {
@@ -762,7 +836,10 @@ pub fn run(rep: &mut Report, tier: Tier) {
     // all documents of the token trees
     let vis = |n: &Node, t: &mut Tally| {
         if n.dead.is_none() && !n.fault_dead && n.mach.pda.is_accepting() {
+            // (the second battery of iterator consumers on a deterministic quarter of the documents)
+            bridge::SECOND_BATTERY_HERE.with(|c| c.set(bridge::fnv(n.text.as_bytes()) % 4 == 0));
             explore::watched(n.text.as_bytes(), || check_document(n.text, t));
+            bridge::SECOND_BATTERY_HERE.with(|c| c.set(true));
             t.nontrivial(&n.text);
             t.outcome(if n.text.contains("{}") { "document:has-empty-object" } else if n.text.contains('{') { "document:has-object" } else { "document:no-object" });
         } else {
